@@ -116,6 +116,8 @@ def _index_bounded(f: FuncInfo, sub: ast.Subscript) -> bool:
             continue
         norm = normalise_compare(t.ast.test)
         for (lhs, op, rhs) in atoms(norm):
+            if lhs in lens and rhs == i and op == ">" and norm[0] in ("atom", "and"):
+                edges.add((t.id, "t"))  # len > i  (canonical orientation of i < len)
             if lhs == i and rhs in lens:
                 if op == "<" and norm[0] in ("atom", "and"):
                     edges.add((t.id, "t"))
